@@ -2,7 +2,7 @@ import Qv.Proofs.PcboEq
 /-!
 # C02: the semantic specification `Sem`, transport lemmas, and the two slack loops
 -/
-namespace Qv
+namespace Qv.PcboP
 
 /-- the three value clauses of the property for one call (`R` is the relation against zero) -/
 structure Sem (R : Rat → Prop) (st st' : St) (P : Poly) (lam : Rat) : Prop where
@@ -140,4 +140,4 @@ theorem slackLoop_spec (lt : Bool) (n : Nat) : ∀ (s : St) (P : Poly) (hi : Rat
     · intro hz
       exact h8 (noZero_addTermB _ _ hz)
 
-end Qv
+end Qv.PcboP
